@@ -65,8 +65,11 @@ def _split_case(args):
     out = []
     case = {"kind": "split", "n": n, "size": size, "zero_first": zero_first,
             "zero_last": zero_last, "skip": skip, "seed": seed}
+    # skip: one switch for both ends, or [initial, final] set independently
+    skip_i, skip_f = (skip, skip) if isinstance(skip, bool) else skip
     tags = {"divides": n % size == 0, "size_gt_n": size > n,
-            "zero_boundary": bool(zero_first or zero_last), "skip": skip}
+            "zero_boundary": bool(zero_first or zero_last),
+            "skip": skip if isinstance(skip, bool) else "mixed"}
     W = "dclab.cli.task_split:split"
     try:
         ev = gen.make_events(n, seed=seed, feats=FEATS)
@@ -77,14 +80,14 @@ def _split_case(args):
         src = d / "in.rtdc"
         gen.write_rtdc(src, ev, logs={"vf-log": ["a", "b"]})
         paths = cli.split(path_in=src, path_out=d / "out", split_events=size,
-                          skip_initial_empty_image=skip,
-                          skip_final_empty_image=skip, ret_out_paths=True)
+                          skip_initial_empty_image=skip_i,
+                          skip_final_empty_image=skip_f, ret_out_paths=True)
         # (how many parts there are and where they are cut is the tool's
         # business; the property constrains their union and their size)
         keep = np.ones(n, bool)
-        if skip and zero_first:
+        if skip_i and zero_first:
             keep[0] = False
-        if skip and zero_last:
+        if skip_f and zero_last:
             keep[-1] = False
         parts = []
         lens = []
@@ -388,6 +391,12 @@ def run(ctx):
                 sitems.append((n, size, True, True, True, ctx.seed, scratch))
                 sitems.append((n, size, True, True, False, ctx.seed,
                                scratch))
+                # the two switches set independently, one empty boundary
+                # image at a time and both
+                for zf, zl in ((True, True), (True, False), (False, True)):
+                    for sk in ([True, False], [False, True]):
+                        sitems.append((n, size, zf, zl, sk, ctx.seed,
+                                       scratch))
     # chunk configuration: alternating (quick) / both (thorough)
     jitems = [(s, ctx.seed, scratch, bool(t))
               for i, s in enumerate(join_specs(ctx))
